@@ -1,6 +1,7 @@
 """Shared by C01 / C02: generate programs with Typing.tla, execute them, normalise observations."""
 import json
 import os
+from fractions import Fraction
 import nv
 
 BASEMAP = {"Length": "L", "Time": "T", "Mass": "M"}
@@ -28,10 +29,107 @@ def gen_and_run(tier, d, workers=8):
     out = os.path.join(d, "typing_out.ndjson")
     nv.write_ndjson(inp, [{"setup": meta["setup"]}] + [{"id": i, "s1": c["s1"], "s2": c["s2"]} for i, c in enumerate(cases)])
     nv.harness("nv-typing", ["typing-run", "--cases", inp, "--out", out])
-    results = nv.read_ndjson_text(open(out, encoding="utf-8").read())
+    rows = nv.read_ndjson_text(open(out, encoding="utf-8").read())
+    global DIMTABLE
+    DIMTABLE = {n: {BASEMAP.get(b, b): Fraction(int(x), int(y)) for b, x, y in v} for n, v in rows[0]["dimension_names"].items()}
+    DIMTABLE["Scalar"] = {}
+    results = rows[1:]
     return res, cases, results
 
 
+DIMTABLE = {}
+SUP = {"⁰": "0", "¹": "1", "²": "2", "³": "3", "⁴": "4", "⁵": "5", "⁶": "6", "⁷": "7", "⁸": "8", "⁹": "9", "⁻": "-"}
+
+
+def parse_printed_dimension(text):
+    """Printed (readable) dimension type -> list of alternative vectors (dict base -> Fraction), or None if the text is
+    not a dimension expression over the session's dimension names.  Grammar: alt (' or ' alt)*;
+    alt: term (('×' | '/') term)* (left-associative); term: ('(' alt ')' | Name | '1') [superscript digits | '^' int |
+    '^(' int ['/' int] ')']."""
+    import re
+    tok_re = re.compile(r"\s*(×|/|\(|\)|\^\(-?\d+(?:/\d+)?\)|\^-?\d+|[⁰¹²³⁴⁵⁶⁷⁸⁹⁻]+|[A-Za-z_][A-Za-z_0-9]*|1)")
+
+    def parse_alt(alt):
+        toks, pos = [], 0
+        alt = alt.strip()
+        while pos < len(alt):
+            m = tok_re.match(alt, pos)
+            if not m:
+                return None
+            toks.append(m.group(1))
+            pos = m.end()
+        idx = [0]
+
+        def scale(vec, f):
+            return {b: v * f for b, v in vec.items()}
+
+        def add(a, b, sign):
+            out = dict(a)
+            for k, v in b.items():
+                out[k] = out.get(k, 0) + sign * v
+            return out
+
+        def exponent():
+            if idx[0] < len(toks):
+                t = toks[idx[0]]
+                if t.startswith("^("):
+                    idx[0] += 1
+                    return Fraction(t[2:-1])
+                if t.startswith("^"):
+                    idx[0] += 1
+                    return Fraction(t[1:])
+                if t[0] in SUP:
+                    idx[0] += 1
+                    return Fraction("".join(SUP[c] for c in t))
+            return Fraction(1)
+
+        def term():
+            if idx[0] >= len(toks):
+                return None
+            t = toks[idx[0]]
+            if t == "(":
+                idx[0] += 1
+                v = expr()
+                if v is None or idx[0] >= len(toks) or toks[idx[0]] != ")":
+                    return None
+                idx[0] += 1
+            elif t == "1":
+                idx[0] += 1
+                v = {}
+            elif re.match(r"[A-Za-z_]", t):
+                if t not in DIMTABLE:
+                    return None
+                idx[0] += 1
+                v = dict(DIMTABLE[t])
+            else:
+                return None
+            return scale(v, exponent())
+
+        def expr():
+            v = term()
+            if v is None:
+                return None
+            while idx[0] < len(toks) and toks[idx[0]] in ("×", "/"):
+                op = toks[idx[0]]
+                idx[0] += 1
+                w = term()
+                if w is None:
+                    return None
+                v = add(v, w, 1 if op == "×" else -1)
+            return v
+
+        v = expr()
+        if v is None or idx[0] != len(toks):
+            return None
+        return {b: x for b, x in v.items() if x != 0}
+
+    alts = []
+    for alt in text.split(" or "):
+        v = parse_alt(alt)
+        if v is None:
+            return None
+        alts.append(v)
+    return alts
 def spec_vec(t):
     """spec type json -> dict base -> (n, d) without zero entries"""
     return {b: (int(v[0]), int(v[1])) for b, v in t["v"].items() if int(v[0]) != 0}
